@@ -341,6 +341,10 @@ def clock_wait(ctx, wf):
         l = [rng.choice(wf) for _ in range(k)]
         if all(impl_case(t).startswith('A') and impl_case(t) != 'A0,0,0' for t in l):
             cases.append((l, rng.randrange(1440)))
+    # directed: the wait crosses the top of an hour whose minute 0 is denoted for the hour that just ended only
+    for _ in range(40 if ctx.thorough() else 14):
+        h = rng.randrange(0, 23)
+        cases.append((['%d:00' % h, '%d:%02d' % (h + 1, rng.randint(2, 9))], h * 60 + rng.randint(5, 55)))
     files = ['Eval vm_compute in (sconcat (map (fun l => spec_or_table l +++ ";") %s)).\n'
              % coq_list([coq_list([coq_str(t) for t in l]) for l, _ in part]) for part in chunks(cases, 40)]
     res = common.run_cases('c11clk', 'From Bardolph Require Import Run.C11Spec.', files)
@@ -358,25 +362,39 @@ def clock_wait(ctx, wf):
             p = TimePattern.from_string(l[0])
         for t in l[1:]:
             p.union(TimePattern.from_string(t))
-        state = {'now': start, 'waits': 0}
+        # the wall clock is replaced where clock.py reads it (datetime.now): every reading advances the time, so a
+        # time of day assembled from two readings is exposed; each tick of the clock thread advances it further
+        import types
+        from bardolph.lib import clock as clock_mod
+        step = rng.choice([1, 7, 20, 31])
+        tick = rng.choice([5, 17, 23])          # tick + step < 60: no minute is ever skipped between two polls
+        state = {'secs': start * 60 + rng.randrange(60 - step), 'waits': 0}   # the first reading falls into the start minute
         clock = Clock()
-        saved = (Clock._hour_minute, Clock.wait)
+
+        class FakeDatetime:
+            @staticmethod
+            def now():
+                state['secs'] += step
+                t = state['secs']
+                return types.SimpleNamespace(hour=(t // 3600) % 24, minute=(t // 60) % 60, second=t % 60)
+        saved = (clock_mod.datetime, Clock.wait)
         try:
-            Clock._hour_minute = staticmethod(lambda: ((state['now'] // 60) % 24, state['now'] % 60))
+            clock_mod.datetime = FakeDatetime
+
             def fake_wait(self):
-                state['now'] += 1
+                state['secs'] += tick
                 state['waits'] += 1
-                if state['waits'] > 3000:
+                if state['waits'] > 40000:
                     raise RuntimeError('no match within two days')
                 return True
             Clock.wait = fake_wait
             try:
                 clock.wait_until(p)
-                got = state['now'] % 1440
+                got = (state['secs'] // 60) % 1440
             except RuntimeError:
                 got = None
         finally:
-            Clock._hour_minute, Clock.wait = saved
+            clock_mod.datetime, Clock.wait = saved
         want = None
         for d in range(1440):
             if tab[(start + d) % 1440] == '1':
